@@ -101,7 +101,7 @@ func Harness_C08_entryAndProof() {
 
 // Harness_C08_getEntries: get-entries under every backend fault class (also C07's byte fidelity).
 //
-//verif:opt maxpaths=8000 reach=ok200,fault,badparam
+//verif:opt maxpaths=30000 reach=ok200,fault,badparam
 func Harness_C08_getEntries() {
 	be, rl := &envBackend{}, &envReqLog{}
 	li := envLogInfo(be, rl)
@@ -136,7 +136,7 @@ func Harness_C08_getEntries() {
 			vAssume(size > uint64(start))
 			rsp.SignedLogRoot = envRoot(size, 32)
 		}
-		n := vChoice("n-leaves", 3)
+		n := vChoice("n-leaves", 4) // 0..3 leaves
 		if int64(n) > in.Count {
 			n = int(in.Count)
 		}
@@ -147,9 +147,17 @@ func Harness_C08_getEntries() {
 		if fault == fMisindexed && n == 0 {
 			n = 1
 		}
+		bad := n - 1 // which leaf carries the wrong index: the first, a middle one or the last
+		if fault == fMisindexed {
+			bad = vChoice("misindexed-position", n)
+		}
 		for i := 0; i < n; i++ {
-			l := &trillian.LogLeaf{LeafIndex: start + int64(i), LeafValue: vBytes("leaf-value", 1+vChoice("leaf-len", 2)), ExtraData: vBytes("extra", vChoice("extra-len", 3))}
-			if fault == fMisindexed && i == n-1 {
+			ll, el := 1, 1 // lengths vary on the first leaf only (keeps the number of shapes small)
+			if i == 0 {
+				ll, el = 1+vChoice("leaf-len", 2), vChoice("extra-len", 3)
+			}
+			l := &trillian.LogLeaf{LeafIndex: start + int64(i), LeafValue: vBytes("leaf-value", ll), ExtraData: vBytes("extra", el)}
+			if fault == fMisindexed && i == bad {
 				l.LeafIndex = vI64("wrong-index")
 				vAssume(l.LeafIndex != start+int64(i))
 			}
